@@ -17,10 +17,12 @@ from ..symreal.core import S, symarr, vjp, new_session, evalarr
 from ..symreal.discharge import prove_equal
 from ..symreal.pool import run_catalogue
 
-ALPHABET = ["B0", "B1", "B2", "B3", "B4", "B5", "B6", "B7", "REG_d", "BW_last", "BW_prev", "BW_int", "BW_leaf_a", "BWR_last", "BWR_int", "RET_int", "RET_last", "Z_a", "Z_mod", "Z_opt"]
+ALPHABET = ["B0", "B1", "B2", "B3", "B4", "B5", "B6", "B7", "B8", "REG_d", "REFUSED_last", "BW_last", "BW_prev", "BW_int", "BW_leaf_a", "BWR_last", "BWR_int", "RET_int", "RET_last", "Z_a", "Z_mod", "Z_opt"]
 DESCR = {
     "B0": "r = a * b", "B1": "m = a + b; r = m * a", "B2": "r = sum(a * a)", "B3": "r = <previous result> * b  (reuse of an earlier result)", "B4": "m = exp(b); r = m * c", "B5": "u = unbind(a); r = u[0] * b + u[1] + a   (multi-output op whose operand is also used directly)",
     "B7": "r = a * d   (d: a parameter that is registered in a nested module only by event REG_d)", "REG_d": "module.inner.pd = d   (registration after the module may already have been queried)",
+    "B8": "r = e * b   (e: a second Parameter object tied to a's storage, registered in the module, not given to the optimizer)",
+    "REFUSED_last": "backward(last result, g of the WRONG shape): refused, and nothing may be left behind that disturbs later calls",
     "B6": "r = cross_entropy(stack([a, b]), labels [0, 1])   (a fused loss whose backward re-uses values of its forward)",
     "BW_last": "backward(last result, fresh g)", "BW_prev": "backward(previous result, fresh g)", "BW_int": "backward(last interior node m, fresh g)",
     "BW_leaf_a": "a.backward(fresh g)", "BWR_last": "with retain_grads(): backward(last result)", "BWR_int": "with retain_grads(): backward(last interior)",
@@ -46,7 +48,8 @@ class World:
         self.c = Parameter(self._arr("c", self.shape), requires_grad=False)
         self.d = Parameter(self._arr("d", self.shape), requires_grad=True)      # registered late (event REG_d), never given to the optimizer
         self.d_registered = False
-        self.leaves = {"a": self.a, "b": self.b, "c": self.c, "d": self.d}
+        self.e = Parameter(self.a)          # a SECOND parameter object tied to a's storage (weight tying): its own flags and gradient, the same data array
+        self.leaves = {"a": self.a, "b": self.b, "c": self.c, "d": self.d, "e": self.e}
 
         class Inner(Module):
             pass
@@ -57,6 +60,7 @@ class World:
                 s.pa = self.a
                 s.pb = self.b
                 s.pc = self.c
+                s.pe = self.e
                 s.inner = Inner()
         self.module = Holder()
         self.optim = SGD([self.a, self.b], lr=0.1)
@@ -80,7 +84,7 @@ class World:
         return t
 
     def valid(self, ev):
-        if ev in ("BW_last", "BWR_last", "RET_last"):
+        if ev in ("BW_last", "BWR_last", "RET_last", "REFUSED_last"):
             return len(self.results) >= 1
         if ev == "BW_prev":
             return len(self.results) >= 2
@@ -138,8 +142,18 @@ class World:
             self.interiors[-1].retain_grad()
         elif ev == "RET_last":
             self.results[-1].retain_grad()
+        elif ev == "REFUSED_last":
+            t = self.results[-1]
+            g = self.fresh_g(tuple(t.shape) + (2,))
+            try:
+                t.backward(g)
+            except Exception:
+                return
+            raise AssertionError("backward accepted an upstream gradient of shape %s for a result of shape %s" % (tuple(t.shape) + (2,), tuple(t.shape)))
         elif ev == "B7":
             self.results.append(a * self.d)
+        elif ev == "B8":
+            self.results.append(self.e * b)
         elif ev == "REG_d":
             self.module.inner.pd = self.d
             self.d_registered = True
@@ -204,8 +218,9 @@ class HistoryCase:
         fail = None
         with shim.symbolic(eps="native"):
             w = World("sym", sess, shape=self.shape)
-            acc = {"a": None, "b": None, "c": None, "d": None}
+            acc = {"a": None, "b": None, "c": None, "d": None, "e": None}
             leafsym = {k: symarr(k, self.shape) for k in "abcd"}
+            leafsym["e"] = leafsym["a"]         # tied storage: the same symbols (no template uses a and e in one graph)
             nel = int(np.prod(self.shape)) if self.shape else 1
             flat = lambda x: np.asarray(x, dtype=object).reshape(-1)
             zeros = lambda: np.array([S.of(0)] * nel, dtype=object)
@@ -243,6 +258,8 @@ class HistoryCase:
                 elif ev in ("Z_mod", "Z_opt"):
                     acc["a"] = zeros()
                     acc["b"] = zeros()
+                    if ev == "Z_mod":
+                        acc["e"] = zeros()
                     if ev == "Z_mod" and w.d_registered:
                         acc["d"] = zeros()          # the module resets exactly the parameters registered below it NOW
                 try:
@@ -376,7 +393,7 @@ class HistoryCase:
             return rep
         exp = {}
         bad = []
-        for k in "abd":
+        for k in "abde":
             exp[k] = None if acc[k] is None else evalarr(np.asarray(acc[k], dtype=object), point).reshape(self.shape)
             g = got[k]
             if exp[k] is None:
@@ -406,7 +423,7 @@ class HistoryCase:
 def _api(ev):
     if ev.startswith("BW"):
         return "Tensor.backward"
-    return {"Z_a": "Tensor.zero_", "Z_mod": "Module.zero_grad", "Z_opt": "Optimizer.zero_grad", "RET_int": "Tensor.retain_grad", "RET_last": "Tensor.retain_grad", "REG_d": "Module.__setattr__"}.get(ev, "build")
+    return {"Z_a": "Tensor.zero_", "Z_mod": "Module.zero_grad", "Z_opt": "Optimizer.zero_grad", "RET_int": "Tensor.retain_grad", "RET_last": "Tensor.retain_grad", "REG_d": "Module.__setattr__", "REFUSED_last": "Tensor.backward"}.get(ev, "build")
 
 
 def _all_zero(arr):
@@ -426,7 +443,7 @@ def histories(tier, seed):
     maxlen = 3
     for n in range(1, maxlen + 1):
         for h in itertools.product(ALPHABET, repeat=n):
-            if h[0] not in ("B0", "B1", "B2", "B3", "B4", "B5", "B6", "B7", "BW_leaf_a", "Z_a", "Z_mod", "Z_opt"):
+            if h[0] not in ("B0", "B1", "B2", "B3", "B4", "B5", "B6", "B7", "B8", "BW_leaf_a", "Z_a", "Z_mod", "Z_opt"):
                 continue
             if not any(e.startswith("BW") for e in h):
                 continue
@@ -436,24 +453,35 @@ def histories(tier, seed):
     BWS = [e for e in ALPHABET if e.startswith("BW")]
     for b in ("B0", "B1", "B2", "B3", "B4", "B5", "B6"):
         if tier == "thorough":
+            # every length-4 history starting with this build would be 7 x 19^3 = 48 000 cases (about an hour); a seeded quarter of them plus the structured ones
             for h in itertools.product(ALPHABET, repeat=3):
-                if any(e.startswith("BW") for e in h):
+                if any(e.startswith("BW") for e in h) and rng.random() < 0.25:
                     hs.append((b,) + h)
         else:
             for r in ("RET_last", "RET_int"):
                 for x in BWS:
                     for y in BWS:
                         hs.append((b, r, x, y))
+    # tied parameters: the module resets BOTH objects
+    for pre in ((), ("B0", "BW_last")):
+        hs.append(pre + ("B8", "BW_last", "Z_mod", "B8", "BW_last"))
+        hs.append(pre + ("B8", "BW_last", "Z_mod"))
+        hs.append(pre + ("B8", "BW_last", "Z_opt", "BW_last", "Z_a"))
+    # a refused call between build and valid calls
+    for b in ("B0", "B1", "B4", "B5"):
+        for tail in (("BW_last",), ("BW_last", "BW_last"), ("BWR_last", "BW_int") if b in ("B1", "B4") else ("BW_last", "Z_a", "BW_last")):
+            hs.append((b, "REFUSED_last") + tail)
+            hs.append((b, "BW_last", "REFUSED_last") + tail)
     # late registration: the module is queried (zero_grad) before and after a parameter is attached to a nested module
     for pre in (("Z_mod",), ("B7", "BW_last", "Z_mod"), ()):
         for post in (("B7", "BW_last", "Z_mod", "B7", "BW_last"), ("B7", "BW_last", "Z_mod"), ("B7", "BW_last", "Z_opt", "BW_last", "Z_mod")):
             hs.append(pre + ("REG_d",) + post)
     # 0-d leaves (a 0-d gradient buffer degenerates easily into a NumPy scalar): every history of length <= 3 (thorough 4) over the templates that make sense for scalars
-    alpha0 = [e for e in ALPHABET if e not in ("B5", "B6", "B7", "REG_d")]
+    alpha0 = [e for e in ALPHABET if e not in ("B5", "B6", "B7", "B8", "REG_d", "REFUSED_last")]
     zero_d = []
     for n in range(1, (4 if tier == "thorough" else 3) + 1):
         for h in itertools.product(alpha0, repeat=n):
-            if h[0] in ("B0", "B1", "B2", "B3", "B4", "BW_leaf_a", "Z_a", "Z_mod", "Z_opt") and any(e.startswith("BW") for e in h):
+            if h[0] in ("B0", "B1", "B2", "B3", "B4", "BW_leaf_a", "Z_a", "Z_mod", "Z_opt") and any(e.startswith("BW") for e in h) and (n < 4 or rng.random() < 0.2):
                 zero_d.append(h)
     for h in [("BW_leaf_a", "B0", "BW_last", "Z_a", "BW_last"), ("B0", "BW_last", "BW_leaf_a", "Z_opt", "B0", "BW_last"), ("B2", "BW_last", "BW_leaf_a", "Z_mod", "BW_last")]:
         zero_d.append(h)
@@ -472,7 +500,8 @@ def main(tier="quick", seed=0, procs=None, only=None):
     run.assume("reals", "numpy", "shims", "atoms", "engines")
     run.assume("histories are bounded (length and alphabet below); per history the contract is proved for all real leaf values and all upstream gradients")
     run.bounds = {"alphabet": DESCR, "leaves": "a,b (2,) requiring grad, c (2,) not requiring grad; Parameters held by a Module and an SGD optimizer",
-                  "histories": "ALL histories of length <=3 over the alphabet (those that start with a build / leaf backward / reset and contain a backward) + %d seeded histories of length 4-%d"
+                  "histories": "ALL histories of length <=3 over the alphabet (those that start with a build / leaf backward / reset and contain a backward); structured length-4 (build, retain_grad, two backward calls; "
+                               "late registration); thorough: a seeded quarter of all length-4 histories; 0-d leaves: all histories <=3 (thorough <=4); + %d seeded histories of length 4-%d"
                                % (600 if tier == "quick" else 6000, 5 if tier == "quick" else 6)}
     run.rule = "one case = one history; after every event: leaf._grad == ghost accumulator for every leaf, unreachable leaves untouched, all callers' gradient arrays unchanged"
     cases = histories(tier, seed)
